@@ -7,6 +7,7 @@
 -/
 import MultiProofs.StoreSpec
 import MultiProofs.Lemmas
+import MultiProofs.C02a
 
 namespace Multi
 open Layout
@@ -328,36 +329,7 @@ def Dim.zeroed (d : Dim) : Dim := { d with offset := 0 }
 def Ext.zeroBase (e : Ext) : Ext := ⟨0, e.last - e.first⟩
 
 
-theorem reindex_append (is : List Int) (pre post : Layout) (h : is.length = pre.length) :
-    reindex (pre ++ post) is = List.zipWith (fun d i => { d with offset := i * d.stride }) pre is ++ post := by
-  induction is generalizing pre post with
-  | nil =>
-    have : pre = [] := List.eq_nil_of_length_eq_zero h.symm
-    subst this; simp [reindex]
-  | cons i rest ih =>
-    cases pre with
-    | nil => simp at h
-    | cons d pre' =>
-      cases rest with
-      | nil =>
-        have : pre' = [] := by simp at h; exact h
-        subst this; simp [reindex, reindex1]
-      | cons j rest' =>
-        have hl : (j :: rest').length = pre'.length := by simpa using h
-        rw [List.cons_append, reindex, reindex1, rotate_cons, List.append_assoc, ih pre' _ hl,
-          ← List.append_assoc, unrotate_snoc]
-        · simp
-        · simp
-
-theorem reindex_zeros (l : Layout) : reindex l (List.replicate l.length 0) = l.map Dim.zeroed := by
-  have := reindex_append (List.replicate l.length 0) l [] (by simp)
-  simp only [List.append_nil] at this
-  rw [this]
-  clear this
-  induction l with
-  | nil => simp
-  | cons d l ih => simp only [List.length_cons, List.replicate_succ, List.zipWith_cons_cons, List.map_cons, ih]; simp [Dim.zeroed]
-
+theorem zeroBased_eq_map_zeroed (l : Layout) : Layout.zeroBased l = l.map Dim.zeroed := rfl
 
 theorem Dim.zeroed_size (d : Dim) : d.zeroed.size = d.size := rfl
 
@@ -399,7 +371,7 @@ theorem numElements_eq_nElems {l : Layout} (h : l.WF) : l.numElements = nElems l
     simp only [Layout.numElements, Layout.exts, List.map_cons, nElems]
     rw [h.head.size_eq, ih h.tail]; rfl
 
-theorem fromLinear_isSome (xs : List Ext) (n : Int) (h : nElems xs ≠ 0) : ∃ r, Exts.fromLinear xs n = some r := by
+theorem fromLinear_isSome_of_ne (xs : List Ext) (n : Int) (h : nElems xs ≠ 0) : ∃ r, Exts.fromLinear xs n = some r := by
   induction xs generalizing n with
   | nil => exact ⟨[], rfl⟩
   | cons e es ih =>
@@ -415,7 +387,7 @@ theorem fromLinear_isSome (xs : List Ext) (n : Int) (h : nElems xs ≠ 0) : ∃ 
         rw [hr]; exact ⟨_, rfl⟩
       · simp
 
-theorem fromLinear_zero (xs : List Ext) (h : nElems xs ≠ 0) :
+theorem fromLinear_zero_of_ne (xs : List Ext) (h : nElems xs ≠ 0) :
     Exts.fromLinear xs 0 = some (List.replicate xs.length 0) := by
   induction xs with
   | nil => rfl
@@ -434,21 +406,47 @@ theorem fromLinearG_isSome (xs : List Ext) (n : Int) : ∃ r, ElemRange.fromLine
   unfold ElemRange.fromLinearG
   by_cases h : Exts.numElements xs = 0
   · simp [h]
-  · simp only [h, if_false]; rw [exts_numElements_eq] at h; exact fromLinear_isSome xs n h
+  · simp only [h, if_false]; rw [exts_numElements_eq] at h; exact fromLinear_isSome_of_ne xs n h
 
 theorem fromLinearG_zero (xs : List Ext) : ElemRange.fromLinearG xs 0 = some (List.replicate xs.length 0) := by
   unfold ElemRange.fromLinearG
   by_cases h : Exts.numElements xs = 0
   · simp [h]
-  · simp only [h, if_false]; rw [exts_numElements_eq] at h; exact fromLinear_zero xs h
+  · simp only [h, if_false]; rw [exts_numElements_eq] at h; exact fromLinear_zero_of_ne xs h
 
-theorem addrs_eq_tuples (n : Nat) (it : ElemIt) :
-    ElemIt.addrs n it = (tuples it.xs n it.ns).map (fun ns => it.base + it.lay.apply ns) := by
+/-- `++` never fails (the guard of `from_linear_`) and keeps everything but `ns`/`n` -/
+theorem ElemIt.inc_some (it : ElemIt) :
+    ∃ it', it.inc = some it' ∧ it'.base = it.base ∧ it'.lay = it.lay ∧ it'.xs = it.xs ∧ it'.n = it.n + 1 ∧
+      ((Exts.nextCanonical it.xs it.ns).2 = false → it'.ns = (Exts.nextCanonical it.xs it.ns).1) := by
+  unfold ElemIt.inc
+  cases hc : (Exts.nextCanonical it.xs it.ns).2 with
+  | true =>
+    obtain ⟨r, hr⟩ := fromLinearG_isSome it.xs (it.n + 1)
+    refine ⟨{ it with ns := r, n := it.n + 1 }, ?_, rfl, rfl, rfl, rfl, ?_⟩
+    · simp only [hc, if_true, hr, Option.map_some]
+    · intro h; cases h
+  | false =>
+    refine ⟨{ it with ns := (Exts.nextCanonical it.xs it.ns).1, n := it.n + 1 }, ?_, rfl, rfl, rfl, rfl, fun _ => rfl⟩
+    simp [hc]
+
+/-- inside the box, `n` steps of `++` (the last of which may leave the box) visit the `n` successive tuples -/
+theorem addrs_eq_tuples (n : Nat) (it : ElemIt) (h : InBox it.xs it.ns) (hn : rowMajor it.xs it.ns + n ≤ nElems it.xs) :
+    ElemIt.addrs n it = some ((tuples it.xs n it.ns).map (fun ns => it.base + it.lay.apply ns)) := by
   induction n generalizing it with
   | zero => rfl
   | succ n ih =>
-    rw [ElemIt.addrs, tuples, List.map_cons, ih]
-    rfl
+    obtain ⟨it', hinc, hb, hl, hx, _, hns⟩ := ElemIt.inc_some it
+    rw [ElemIt.addrs, hinc]
+    cases n with
+    | zero => simp [ElemIt.addrs, tuples, ElemIt.current]
+    | succ n =>
+      rcases nextCanonical_step h with ⟨c1, c2, c3, c4⟩ | ⟨c1, _, _⟩
+      · have hns' := hns c2
+        have := ih it' (by rw [hx, hns']; exact c3) (by rw [hx, hns', c4]; omega)
+        simp only [Option.bind_eq_bind, Option.bind_some, this, Option.pure_def]
+        rw [hx, hb, hl, hns']
+        rfl
+      · omega
 
 /-- the displacements of the zero-based copy at zero-based tuples are those of the layout at its own tuples -/
 theorem off_eq_apply_zeroed {l : Layout} (h : l.WF) :
@@ -543,9 +541,8 @@ theorem boxIndices_length (v : View) (hwf : v.lay.WF) : ((boxIndices v.exts).len
 theorem elemit_kth (v : View) (hwf : v.lay.WF) :
     ∃ b e, (ElemRange.ofView v).begin' = some b ∧ (ElemRange.ofView v).end' = some e ∧
       e.diff b = v.numElements ∧ (ElemRange.ofView v).size = v.numElements ∧
-      ElemIt.addrs (boxIndices v.exts).length b = (boxIndices v.exts).map v.addr := by
-  have hz : ElemRange.ofView v = ⟨v.base, v.lay.map Dim.zeroed⟩ := by
-    simp [ElemRange.ofView, reindex_zeros]
+      ElemIt.addrs (boxIndices v.exts).length b = some ((boxIndices v.exts).map v.addr) := by
+  have hz : ElemRange.ofView v = ⟨v.base, v.lay.map Dim.zeroed⟩ := ofView_eq v
   obtain ⟨r, hr⟩ := fromLinearG_isSome (Layout.exts (v.lay.map Dim.zeroed)) (Layout.numElements (v.lay.map Dim.zeroed))
   refine ⟨⟨v.base, v.lay.map Dim.zeroed, 0, Layout.exts (v.lay.map Dim.zeroed),
       List.replicate (Layout.exts (v.lay.map Dim.zeroed)).length 0⟩,
@@ -574,12 +571,19 @@ theorem elemit_kth (v : View) (hwf : v.lay.WF) :
       induction es with
       | nil => rfl
       | cons e es ih => simp only [List.length_cons, List.replicate_succ, List.map_cons, ih]; rfl
-    rw [addrs_eq_tuples]
-    simp only [hx, hlen, hzeros]
-    rw [tuples_eq_boxIndices _ hle0]
-    have : v.addr = (fun x => v.base + x) ∘ (fun idx => v.lay.off idx) := by
-      funext idx; simp [addr_eq]
-    rw [this, ← List.map_map, View.exts, hoff, List.map_map]
-    rfl
+    by_cases hN : (nElems (v.lay.exts.map Ext.zeroBase)).toNat = 0
+    · rw [hN] at hlen
+      rw [List.eq_nil_of_length_eq_zero hlen]; rfl
+    · have hp : 0 < nElems (v.lay.exts.map Ext.zeroBase) := by omega
+      have hin := inBox_firsts_of_pos _ hle0 hp
+      rw [addrs_eq_tuples]
+      · simp only [hx, hlen, hzeros]
+        rw [tuples_eq_boxIndices _ hle0]
+        have : v.addr = (fun x => v.base + x) ∘ (fun idx => v.lay.off idx) := by
+          funext idx; simp [addr_eq]
+        rw [this, ← List.map_map, View.exts, hoff, List.map_map]
+        rfl
+      · simp only [hx, hzeros]; exact hin
+      · simp only [hx, hzeros, hlen, rowMajor_firsts]; omega
 
 end Multi
